@@ -233,6 +233,7 @@ type XGen struct {
 	MultiTextP int  // percent: more than one non-blank text run (outside the C01 domain)
 	Namespaces bool
 	Blank      bool // inter-element whitespace
+	SeqShape   bool // C04 domain: text alone or ahead of the child elements; <= 1 comment, PI, directive per element
 }
 
 var xmlNames = []string{"a", "b", "c", "item", "k", "A", "Item", "a-b", "x_y", "list", "n1", "a.b"}
@@ -275,6 +276,35 @@ func (r *Rng) xmlNode(g *XGen, depth int) *XNode {
 	case x < 40: // empty
 	default:
 		nk := 1 + r.Intn(g.MaxKids)
+		if g.SeqShape {
+			// text (if any) first, then children; at most one comment / PI / directive
+			if r.P(g.MixedP) {
+				n.Kids = append(n.Kids, &XNode{Kind: 'T', Text: r.Pick(g.Texts)})
+			}
+			used := map[byte]bool{}
+			for i := 0; i < nk; i++ {
+				if g.Blank && r.P(30) && len(n.Kids) > 0 && n.Kids[len(n.Kids)-1].Kind != 'T' {
+					n.Kids = append(n.Kids, &XNode{Kind: 'T', Text: r.Pick([]string{"\n", "\n  ", " ", "\t"})})
+				}
+				if g.Comments && r.P(15) {
+					k := []byte{'C', 'P', 'D'}[r.Intn(3)]
+					if !used[k] {
+						used[k] = true
+						switch k {
+						case 'C':
+							n.Kids = append(n.Kids, &XNode{Kind: 'C', Text: r.Pick([]string{" note ", "x", "a-b"})})
+						case 'P':
+							n.Kids = append(n.Kids, &XNode{Kind: 'P', Target: r.Pick([]string{"pi", "target"}), Text: r.Pick([]string{"a=1", "do it"})})
+						default:
+							n.Kids = append(n.Kids, &XNode{Kind: 'D', Text: r.Pick([]string{"DOCTYPE x", "ELEMENT a"})})
+						}
+						continue
+					}
+				}
+				n.Kids = append(n.Kids, r.xmlNode(g, depth+1))
+			}
+			return n
+		}
 		textBudget := 0
 		if r.P(g.MixedP) {
 			textBudget = 1
